@@ -316,8 +316,23 @@ fn run_ops(ops: &[QOp], stats: &mut Stats) -> Result<u64, Violation> {
                     if (want == Some(true)) != (consumed == pat.len()) || (want != Some(true) && consumed != 0) {
                         return bad(format!("eat({:?}, {}) on the single buffer {:?} returned {:?} but consumed {} bytes", pat, CMP_NAMES[cmp as usize], cat, want, consumed));
                     }
-                    // independent of the argument order: need-more exactly when no mismatch can be
-                    // decided before the text runs out under either order
+                    // ... and the prefix comparison itself is (byte of the text, byte of the pattern),
+                    // the order every caller written against this API has relied on
+                    let f = cmp_fn(cmp);
+                    let mut by_model = Some(true);
+                    for (k, pb) in pat.bytes().enumerate() {
+                        if k >= cb.len() {
+                            by_model = None;
+                            break;
+                        }
+                        if !f(&cb[k], &pb) {
+                            by_model = Some(false);
+                            break;
+                        }
+                    }
+                    if by_model != want {
+                        return bad(format!("eat({:?}, {}) on the single buffer {:?} returned {:?}; comparing (text byte, pattern byte) gives {:?}", pat, CMP_NAMES[cmp as usize], cat.chars().take(80).collect::<String>(), want, by_model));
+                    }
                     stats.inc("eat_asymmetric_closure");
                 } else {
                     for (k, pb) in pat.bytes().enumerate() {
@@ -649,13 +664,13 @@ impl World for QueueWorld {
         emit(&greedy_min(ops, &candidates, &mut fails, budget))
     }
     fn rule(&self) -> String {
-        "history = seeded sequence of 3..120 BufferQueue operations (push_back/push_front with owned or shared-adjacent tendrils, next, peek, pop_except_from with random small-char sets, eat with patterns biased to prefixes of the queue content and both comparison functions, pop_front, peek_front_chunk_mut + caller-side removal, swap_with, replace_with); after every operation return value and full buffer partition are compared with a VecDeque<String> model; non-trivial = at least two pushes and at least one consuming operation; distinct = distinct hash of the operation list".into()
+        "history = seeded sequence of 3..120 BufferQueue operations (push_back/push_front with owned tendrils or slices of one shared allocation, occasionally 4..128 KiB, next, peek, pop_except_from with random small-char sets, eat with patterns biased to prefixes of the queue content, five comparison closures (three asymmetric, judged against the same call on a one-buffer queue) and the retry protocol eat / more input / same eat, pop_front, peek_front_chunk_mut + caller-side removal, un-reading the last run, swap_with, replace_with); every return value is compared with a VecDeque<String> model; the full buffer partition after every operation, or — in quiet histories, half of them — once at the end, because measuring touches the queue; non-trivial = at least two pushes and at least one consuming operation; distinct = distinct hash of the operation list".into()
     }
     fn components(&self) -> Value {
         json!({"real": ["markup5ever::buffer_queue::BufferQueue", "markup5ever::SmallCharSet", "tendril::StrTendril"], "stub": ["caller (operation history)", "VecDeque<String> reference model"]})
     }
     fn assumptions(&self) -> Vec<String> {
-        vec!["patterns are non-empty ASCII and eq is u8::eq or eq_ignore_ascii_case (the two the code base uses)".into(), "seeded search: a clean batch is evidence, not proof".into()]
+        vec!["patterns are non-empty ASCII; comparison closures never match a non-ASCII byte against an ASCII pattern byte".into(), "seeded search: a clean batch is evidence, not proof".into()]
     }
     fn reports_panics(&self) -> bool {
         true
